@@ -153,7 +153,8 @@ def tlc(module, cfg, workers=4, timeout=600, env_extra=None, simulate=None, dept
         extra_args=(), xmx="4g", want_payload=True, coverage=False, cwd=SPEC, keep_output=None):
     """Run TLC on spec/<module>.tla with spec/<cfg>. Returns TlcResult.  Tool failure -> ToolError."""
     ensure_dirs()
-    meta = os.path.join(CACHE, "tlc", f"{module}-{os.getpid()}-{int(time.time()*1000)%100000}")
+    import uuid
+    meta = os.path.join(CACHE, "tlc", f"{module}-{os.getpid()}-{uuid.uuid4().hex[:12]}")      # unique per call: checks start many TLCs at once
     os.makedirs(meta, exist_ok=True)
     jopts = "-Xss1g"
     if depth_first:
